@@ -102,6 +102,25 @@ def path_of(e):
     return ("<path is not a list>", repr(p))
 
 
+def error_shape(e):
+    """None when an `errors` entry has the shape every oracle relies on, else a clause name (so that an oracle reports it instead of
+    crashing on it): dict, str message, path list or null, locations null or a list of {line: int, column: int}"""
+    if not isinstance(e, dict):
+        return "error-entry-not-a-dict"
+    if not isinstance(e.get("message"), str):
+        return "error-without-message"
+    if e.get("path") is not None and not isinstance(e.get("path"), list):
+        return "error-path-not-a-list"
+    locs = e.get("locations")
+    if locs is not None:
+        if not isinstance(locs, list):
+            return "error-locations-not-a-list"
+        for l in locs:
+            if not (isinstance(l, dict) and type(l.get("line")) is int and type(l.get("column")) is int):
+                return "error-location-malformed"
+    return None
+
+
 def error_paths(resp):
     return [path_of(e) for e in resp.get("errors") or []]
 
